@@ -1,15 +1,67 @@
 #!/bin/bash
 # Runs the quick checks (without self-tests) on a scratch worktree of /repo with one patch applied;
-# /repo itself is not touched. usage: tools/ref_eval.sh <patch.diff> [base-commit] [prop-list|all]
+# /repo itself is not touched. usage: tools/ref_eval.sh <patch.diff> [base-commit|auto] [prop-list|all]
+#
+# A patch that no longer applies to HEAD (a later repair of go-ucfg touched the same lines) carries the commit it
+# was written for in a side file (<name>.base next to a refactoring, `base` in a seed's directory). It is then
+# evaluated DIFFERENTIALLY on that commit: the checks run on the base alone and on base + patch, and only what the
+# patch adds is printed (findings and undecided lines that the base alone does not produce) — the defects the base
+# still has, and that today's rules report, are not the patch's.
 set -u
 PATCH=$(readlink -f "$1"); BASE=${2:-HEAD}; PROPS=${3:-all}
 HERE=$(cd "$(dirname "$0")/.." && pwd)
 export GOFLAGS=-mod=mod GOPROXY=off GOSUMDB=off GOTOOLCHAIN=local GOWORK=off
+if [ "$BASE" = "HEAD" ] || [ "$BASE" = "auto" ]; then
+  BASE=HEAD
+  for side in "${PATCH%.diff}.base" "$(dirname "$PATCH")/base"; do
+    if [ -f "$side" ] && [ "$(basename "$PATCH")" != "base" ]; then
+      case "$side" in */base) [ "$(basename "$PATCH")" = "patch.diff" ] || continue;; esac
+      BASE=$(cat "$side"); break
+    fi
+  done
+fi
 W=$(mktemp -d /tmp/refeval.XXXXXX)
 cleanup() { git -C /repo worktree remove --force "$W/wt" >/dev/null 2>&1; rm -rf "$W"; }
 trap cleanup EXIT
 git -C /repo worktree add -f --detach "$W/wt" "$BASE" >/dev/null 2>&1 || { echo "worktree failed"; exit 3; }
+mkdir -p "$W/verif"; cp "$HERE/known_findings.json" "$W/verif/"
+FILTER='^(FINDING|VIOLATION|UNDECIDED|SUMMARY|TYPE-ERROR|NOTE property=C.. normalisation)'
+DIFFERENTIAL=0; BL=""
+if [ "$BASE" != "HEAD" ] && [ "$(git -C /repo rev-parse "$BASE")" != "$(git -C /repo rev-parse HEAD)" ]; then
+  DIFFERENTIAL=1
+  # the helpers of the base commit are the reference for rename detection and inlining of new helpers
+  "$HERE/bin/ucfgcheck" -repo "$W/wt" -write-baseline > "$W/baseline.txt" 2>/dev/null
+  BL="-baseline $W/baseline.txt"
+  "$HERE/bin/ucfgcheck" $BL -repo "$W/wt" -verif "$W/verif" -prop "$PROPS" -tier quick -nocontrols 2>&1 | grep -E "$FILTER" | sed "s|$W/wt/||g" > "$W/base.out"
+fi
 git -C "$W/wt" apply "$PATCH" || { echo "patch does not apply to $BASE"; exit 3; }
 (cd "$W/wt" && go build ./... && go test -vet=off -count=1 ./... >/dev/null 2>&1) || { echo "patched tree does not build or fails tests"; exit 3; }
-mkdir -p "$W/verif"; cp "$HERE/known_findings.json" "$W/verif/"
-"$HERE/bin/ucfgcheck" -repo "$W/wt" -verif "$W/verif" -prop "$PROPS" -tier quick -nocontrols 2>&1 | grep -E "^(FINDING|VIOLATION|UNDECIDED|SUMMARY|TYPE-ERROR|NOTE property=C.. normalisation)" | sed "s|$W/wt/||g" | cut -c1-420
+"$HERE/bin/ucfgcheck" $BL -repo "$W/wt" -verif "$W/verif" -prop "$PROPS" -tier quick -nocontrols 2>&1 | grep -E "$FILTER" | sed "s|$W/wt/||g" > "$W/patched.out"
+if [ $DIFFERENTIAL -eq 0 ]; then
+  cut -c1-420 "$W/patched.out"
+  exit 0
+fi
+echo "NOTE evaluated differentially on base $BASE (the patch does not apply to HEAD)"
+python3 - "$W/base.out" "$W/patched.out" <<'PY'
+import re,sys
+def key(l):
+    m=re.match(r'^FINDING (.*?) at ',l)
+    if m: return ('F',re.sub(r'#\d+$','',m.group(1)))
+    if l.startswith('UNDECIDED'): return ('U',re.sub(r'\b\d+\b','N',l)[:160])
+    return None
+base=set(); 
+for l in open(sys.argv[1]):
+    k=key(l)
+    if k: base.add(k)
+for l in open(sys.argv[2]):
+    l=l.rstrip('\n')
+    if l.startswith('SUMMARY') or l.startswith('NOTE'):
+        print(l[:420]); continue
+    if l.startswith('VIOLATION'): continue
+    k=key(l)
+    if k is None or k in base: continue
+    print(l[:420])
+    if k[0]=='F':
+        m=re.match(r'^(?:ARCH386/\d+/)?R(\d\d)',k[1])
+        if m: print('VIOLATION property=C%s replay=- (new with the patch)'%m.group(1))
+PY
